@@ -84,7 +84,17 @@ inline std::string vstr(const std::vector<int> &v) { std::string s = "["; for (s
 inline std::vector<int> sorted(std::vector<int> v) { std::sort(v.begin(), v.end()); return v; }
 
 // ---------------------------------------------------------------- C01: caches = exact inverse of the definitions
+// The properties quantify over HISTORIES of valid calls in which no halfface is ever used by two live cells: once a state of the
+// running script was outside that contract (only the malformed stream gets there), later states may look fine again while the
+// caches are legitimately stale, so nothing after that point is judged.  (Each script runs in its own forked child.)
+inline bool &history_in_contract() { static bool ok = true; return ok; }
+inline bool state_valid_for_c01(const Snap &s);
 inline bool valid_for_c01(const Snap &s) {
+    if (!history_in_contract()) return false;
+    if (!state_valid_for_c01(s)) { history_in_contract() = false; return false; }
+    return true;
+}
+inline bool state_valid_for_c01(const Snap &s) {
     // the quantifier of C01: no halfface belongs to two live cells, no face lists a halfedge twice
     std::map<int, int> owner;
     for (int c = 0; c < (int)s.C.size(); ++c) if (!s.cd[c]) for (int hf : s.C[c]) { if (owner.count(hf)) return false; owner[hf] = c; }
